@@ -96,7 +96,7 @@ PROPS['C14'] = dict(
     note='Trusted: Coq kernel, model, extraction, harness, Python MQTT parser. No axioms.')
 
 PROPS['C02'] = dict(
-    sess=[('sess_c02', 300, 4000), ('sweep_c02', 300, 4000)],
+    sess=[('sess_c02', 300, 4000), ('sweep_c02', 300, 4000), ('py_c01', 200, 2000)],
     events='w', state=['ret', 'conn', 'gen', 'h'],
     monitors=[M.mon_c02, M.mon_c17, M.mon_c05_replay],
     title='an accepted QoS 1 publish is never lost: replayed on each resume until PUBACK',
@@ -392,7 +392,7 @@ PROPS['C13'] = dict(
          'No axioms.')
 
 PROPS['C16'] = dict(
-    sess=[('drain_c16', 300, 5000), ('drain_base', 200, 4000), ('drain_c06', 150, 3000), ('drain_c03', 100, 2000), ('py_hist', 200, 3000)],
+    sess=[('drain_c16', 300, 5000), ('drain_base', 200, 4000), ('drain_c06', 150, 3000), ('drain_c03', 100, 2000), ('py_hist', 200, 3000), ('py_c16f', 150, 1500)],
     events='wrf', state=['ret', 'ctl', 'rel', 'srv', 'quota', 'h', 'conn', 'live', 'pq', 'cp', 'gen'],
     monitors=[M.mon_c16, M.mon_c16_flush, M.mon_hist, M.mon_refused_too_large, M.mon_panic],
     title='with a responsive broker every accepted operation completes; the session quiesces',
